@@ -8,6 +8,13 @@ def hook_commits():
     return [l.split()[0] for l in out.splitlines() if "verif hook" in l]
 
 CLAIMED = {
+ "C08": dict(
+   level="exploration",
+   text="Two seeded families through the real add_block. Work gate: one transaction set (fee classes x 8 routing-path shapes incl. forged, non-contiguous, self-hop, not ending at the creator) bundled at two timestamp offsets around the thresholds, each offered to a fresh replica; accepted => paths valid and independently computed u128 work >= parent burn fee / offset; acceptance monotone in the offset; no work needed from two heartbeats on. Payouts: routed fee-paying histories with three ticket patterns; every Fee-transaction output goes to the ticket solver, a hop recipient or a path-less sender of the blocks being paid, and the sum does not exceed the fees those blocks collected.",
+   design="§6 C08",
+   note="Trusted: oracle's work computation and eligibility rule (written from the property statement), signature verification primitive. The converse (sufficient work => accepted) is only counted, not demanded.",
+   technique="deterministic simulation: seeded routing-path/timestamp-offset injection with independent work and payout-eligibility oracles"),
+
  "C06": dict(
    level="exploration",
    text="Seeded histories; the block at a seeded position is edited (10 edits: reorder/replace/add/remove/duplicate transactions or change a payload under the unchanged signed header; re-sign with another key; change creator/timestamp/treasury without re-signing), the edited block goes to node A and the original to node B through the decode+generate path, then the rest of the history to both. Oracles: same hash + different ordered transaction list is never accepted; header edits change the hash or are rejected (and never accepted under a new hash without a valid creator signature); same tip hash on two nodes implies identical spendable sets.",
